@@ -21,6 +21,12 @@ def checkServe (c : Case) : VM Unit := do
   match get "finalhealth" with
   | ["200", "Healthy"] => pure ()
   | other => vfail "C18" "health-after-faults" s!"{other}"
+  -- several requests over one kept-alive connection: each gets its own complete answer
+  match get "reuse" with
+  | [sent, ok, detail] =>
+    if sent != ok then vfail "C18" "keep-alive-request-not-answered" s!"sent={sent} answered-correctly={ok} {detail}"
+    if (get "final").headD "0" == "1" then vstat "serve.keep-alive-requests" (nat! sent)
+  | _ => pure ()
   match get "healthprobes" with
   | [n, ok] => if n != ok then vfail "C18" "health-during-load" s!"probes={n} healthy={ok}"
   | _ => pure ()
